@@ -303,13 +303,15 @@ def predict_panic(kind, site, b):
     if site == "triple/predicate.Parse":
         if not raw.startswith(b'"'):
             return None
-        idx = raw.find(b'"@[')
-        if idx < 0:
+        if raw.find(b'"@[') < 0:
             return None
-        if idx + 3 > len(raw) - 1:
-            return ("predicate-parse-nothing-after-bracket", "slice bounds out of range [%d:%d]" % (idx + 3, len(raw) - 1))
-        if raw[idx + 3:len(raw) - 1] == b'"':
-            return ("predicate-parse-anchor-lone-quote", "index out of range [-1]")
+        # (stated for the first and for the last occurrence of "@[ so that the class does not depend on
+        # which of the two the parser uses)
+        if raw.endswith(b'"@['):
+            return ("predicate-parse-nothing-after-bracket", "slice bounds out of range [%d:%d]" % (len(raw), len(raw) - 1))
+        for idx in (raw.find(b'"@['), raw.rfind(b'"@[')):
+            if raw[idx + 3:len(raw) - 1] == b'"':
+                return ("predicate-parse-anchor-lone-quote", "index out of range [-1]")
         return None
     if site == LIT_PARSE:
         if not raw.startswith(b'"'):
@@ -386,7 +388,10 @@ def text_features(recs, obj=False):
 def classify_c05(cls, ev):
     """-> list of classes (each is reported); [] = unexplained."""
     if ev["ev"] == "RT":
-        f = text_features(ev["v"], ev["kind"] == "obj")
+        recs = ev["v"]
+        if ev["kind"] == "triple":               # only the components that fail their own round trip
+            recs = [r if (i + 1) in ev["cbad"] else {"k": "none"} for i, r in enumerate(recs)]
+        f = text_features(recs, ev["kind"] == "obj")
         if cls == "printed-form-rejected":
             # (a text starting with ^^type: makes the parser panic today and is rejected with an error
             # once the parser checks its slice bounds; both are the same first-delimiter defect)
@@ -401,8 +406,8 @@ def classify_c05(cls, ev):
                 return ["int64-uuid-varint-overflow"]
             return []
         f = set()
-        for i in ev["bad"]:                      # only the triples whose own round trip fails
-            f |= text_features(ev["g"][i - 1])
+        for b in ev["bad"]:                      # only the triples / components whose own round trip fails
+            f |= text_features([r if (i + 1) in b[1:] else {"k": "none"} for i, r in enumerate(ev["g"][b[0] - 1])])
         feat = set(ev["feat"])
         if cls == "read-error":
             f &= {"predicate-id-forms-quote-at-bracket", "text-containing-literal-type-delimiter", "text-starting-with-type-delimiter"}
